@@ -327,6 +327,21 @@ def real_parser_family():
                 got = M.match(a, spec_text([op, b], w))
                 check('family/string', got == fn(a, b),
                       detail=(a, op, b, got))
+    # operands that merely LOOK like the beginning of an operator: only the
+    # documented operator literals are operators
+    odd = ['s=1', 's=fast', 's=x<y', '!foo', '!', 's', 'sx', 'in>', 'or',
+           'all-in']
+    for a, b in itertools.product(odd, odd):
+        for op, fn in stable.items():
+            got = M.match(a, op + ' ' + b)
+            check('family/string-operand-that-looks-like-an-operator',
+                  got == fn(a, b), detail=(a, op, b, got))
+        check('family/in-operand-that-looks-like-an-operator',
+              M.match(a, '<in> ' + b) == (b in a), detail=(a, b))
+        check('family/or-operand-that-looks-like-an-operator',
+              M.match(a, '<or> zzz <or> ' + b) == (a == b), detail=(a, b))
+        check('family/all-in-operand-that-looks-like-an-operator',
+              M.match(str([a]), '<all-in> ' + b) == (a == b), detail=(a, b))
     for a, b in itertools.product(['gcc', 'gcc-4.8', 'clang', '', 'cc'],
                                   ['gcc', 'cc', 'g', '4.8', 'x']):
         check('family/in', M.match(a, '<in> ' + b) == (b in a),
